@@ -15,13 +15,15 @@ XmlTypes == {"Element", "Attribute", "Text"}
 \* the rows of the documentation tables (List / Tuple / Union), plus the PEP 585 / PEP 604 spellings it names
 Forms == {"bare", "optional", "list", "optionalList", "listUnion", "tokensList", "listOfTokens",
           "tuple", "optionalTuple", "tupleUnion", "tokensTuple", "tupleOfTokens",
-          "union", "optionalUnion", "pep585List", "pep604Optional", "pep604Union"}
+          "union", "optionalUnion", "pep585List", "pep604Optional", "pep604Union",
+          "unionNumeric", "listUnionNumeric"}     \* Union[str, int, float] as in the documentation's own example: the numeric members overlap
 Leaves == {"str", "int", "float", "bool", "Decimal", "QName", "XmlDate", "XmlDuration", "bytes16", "bytes64", "Enum"}
 
-Repeating(f) == f \in {"list", "optionalList", "listUnion", "listOfTokens", "tuple", "optionalTuple", "tupleUnion", "tupleOfTokens", "pep585List"}
+Repeating(f) == f \in {"list", "optionalList", "listUnion", "listOfTokens", "tuple", "optionalTuple", "tupleUnion", "tupleOfTokens", "pep585List",
+                       "listUnionNumeric"}
 IsTuple(f)   == f \in {"tuple", "optionalTuple", "tupleUnion", "tokensTuple", "tupleOfTokens"}
 IsTokens(f)  == f \in {"tokensList", "listOfTokens", "tokensTuple", "tupleOfTokens"}
-IsUnion(f)   == f \in {"listUnion", "tupleUnion", "union", "optionalUnion", "pep604Union"}
+IsUnion(f)   == f \in {"listUnion", "tupleUnion", "union", "optionalUnion", "pep604Union", "unionNumeric", "listUnionNumeric"}
 Nullable(f)  == f \in {"optional", "optionalList", "optionalTuple", "optionalUnion", "pep604Optional"}
 
 \* an attribute or the text of an element occurs once: it can hold one value or one token list, never a repetition
